@@ -34,6 +34,9 @@ checks={
  "C06":dict(text=LVL+"one-step refinement against a reference deque with capacity (unlimited, fixed capacity, quota tracker): prefix of pushes at either end, optional Close, then 2 (3) arbitrary operations out of 12, with Len and both non-destructive walks compared after every step (item values symbolic); happens-before race monitor on every concurrent execution; concurrent histories of 3 (4) operations of 12 kinds in 2 (3) goroutines under the symbolic scheduler with a search for a real-time-consistent linearization",
             note="capacity <=3, prefix <=3; histories: unlimited and capacity-1 deques, preemption bound 1 (2) because the deque's wait loops signal before every wait; quota-tracker Force pushes: only 'at most one eviction, from the opposite end, push succeeds, Len <= hard limit'; reduction to all histories is the DESIGN C05/C06 argument; trusted: sync/cond/context models",
             ref="§5 C06", tech="SSA symbolic execution + SMT for item values, symbolic scheduler + linearization search for histories"),
+ "C20":dict(text=LVL+"one iterator goroutine against one mutator goroutine on Queue (Producer and Iterator) and Deque (forward/reverse x blocking/non-blocking producers) under the symbolic scheduler: every interleaving at lock-release granularity of <=3 mutations with each step of the iterator; strong clauses (order, exactly once, nothing skipped, not parked with an unseen item, EOF after Close, nothing removed) without removals, weak clauses (no panic, only values that were in the container, returns on Close/cancel) with removals; item values symbolic",
+            note="initial contents <=2 items, mutator <=3 (queue) / <=2 (deque; 3 thorough) operations, preemption bound 2 / 1 (3 / 2 thorough); unlimited containers only; 'returns' = at quiescence under weak fairness; trusted: sync/cond/context models",
+            ref="§5 C20", tech="SSA symbolic execution with symbolic scheduler (bounded, sleep sets) + SMT for item values"),
 }
 NA={}
 m={"version":1,
